@@ -28,6 +28,7 @@ class Scope(list):
         self.deferred = False
         self.real = []
         self.process_depth = 0
+        self.mixin_depth = 0
 
     def push(self):
         """Push level on scope
